@@ -16,8 +16,15 @@ func main() {
 		json.NewEncoder(os.Stdout).Encode(Signature())
 	case "replay":
 		os.Exit(runReplay(os.Args[2:]))
+	case "record":
+		os.Exit(runRecord(os.Args[2:]))
 	default:
 		fmt.Fprintln(os.Stderr, "unknown command", os.Args[1])
 		os.Exit(2)
 	}
+}
+
+func toJSON(v interface{}) string {
+	b, _ := json.Marshal(v)
+	return string(b)
 }
